@@ -1,3 +1,5 @@
+import RjModel.Lemmas.SyncLemmas
+import RjModel.Lemmas.DoerLemmas
 import RjModel.Lemmas.BossTraces
 import RjModel.Lemmas.ConfirmLemmas
 import RjModel.Props.C01
@@ -186,5 +188,48 @@ example :
     ((run ⟨"^(?:", ")$"⟩ exampleScenario).srcTrace, (run ⟨"^(?:", ")$"⟩ exampleScenario).outcome) =
       ([.setRoot "S", .getEntries [], .getFileContent "f"], .ok) := by
   decide
+
+/-! ### the doer's side, over the file-system model -/
+
+/-- **What one executed command may change** (the doer model, any state, any command): nothing; or only
+the one path `root ++ relative path` the command names; or — `CreateRootAncestors` — missing prefixes of
+the root's parent become folders.  In particular read-only commands change nothing, and no command
+changes a path outside the root other than by creating the root's missing ancestors — provided the
+outcome is `ok` (the model's `escape` = the kernel would follow a link inside the tree). -/
+theorem C02_exec_confined (k : ChunkCfg) (keepOf : List FilterSpec → String → Bool) (st st' : DoerSt) (c : Cmd)
+    (out : List Resp) (h : execCmd k keepOf st c = .ok st' out) (q : FPath) (hq : st'.fs.get q ≠ st.fs.get q) :
+    (∃ root sl, st.root = some (root, sl) ∧ root <+: q ∧ c.mutating = true) ∨
+    (∃ root sl, st.root = some (root, sl) ∧ c = .createRootAncestors ∧ q <+: root.dropLast ∧
+      st.fs.get q = none ∧ st'.fs.get q = some .folder) := by
+  rcases execCmd_effect k keepOf st st' c out h with e | ⟨p, full, -, hf, hm, hc⟩ | ⟨root, sl, hr, hcmd, hall⟩
+  · rw [e] at hq; exact absurd rfl hq
+  · left
+    obtain ⟨root, sl, hr, hpre⟩ := fullOf_prefix hf
+    refine ⟨root, sl, hr, ?_, hm⟩
+    by_cases hqf : q = full
+    · subst hqf; exact hpre
+    · exact absurd (hc q hqf) hq
+  · right
+    rcases hall q with e | ⟨h1, h2, h3⟩
+    · exact absurd e hq
+    · exact ⟨root, sl, hr, hcmd, h3, h1, h2⟩
+
+/-- read-only commands (everything the source doer is ever sent, C02_src_trace) leave the file system as it is -/
+theorem C02_readonly_exec (k : ChunkCfg) (keepOf : List FilterSpec → String → Bool) (st st' : DoerSt) (c : Cmd)
+    (out : List Resp) (hc : c.readOnly = true) (h : execCmd k keepOf st c = .ok st' out) : st'.fs = st.fs := by
+  rcases execCmd_effect k keepOf st st' c out h with e | ⟨p, full, -, -, hm, -⟩ | ⟨_, _, _, hcmd, _⟩
+  · exact e
+  · cases c <;> simp_all [Cmd.readOnly, Cmd.mutating]
+  · subst hcmd; simp [Cmd.readOnly] at hc
+
+/-- **A whole sync stays inside the destination and never follows a link**: the destination half of a
+sync on the file-system model (every destination tree below the root, every source tree) ends `ok` —
+no call fails and none passes through a symlink — and every path that does not lie below the doer's
+root is as it was.  (Corollary of `sync_mirror`.) -/
+theorem C02_sync_confined {fs0 : FS} {r : FPath} {ld : List (FPath × Node)} {src : FPath → Option SEntry}
+    {ls : List (FPath × SEntry)} (hw : DestWF fs0 r ld) (hs : SrcWF src ls) :
+    ∃ fs', syncDest fs0 r src ls ld = .ok fs' ∧ ∀ q, ¬ r <+: q → fs'.get q = fs0.get q := by
+  obtain ⟨fs', h1, h2, -, -⟩ := sync_mirror hw hs
+  exact ⟨fs', h1, h2⟩
 
 end Rj.C02
